@@ -285,3 +285,11 @@ def run(ctx):
     from .. import numeric
     _run(ctx)
     numeric.arith_base(ctx, "C20.B1")
+    # the hook's caller guard compares with the LP token address the pair stored at registration: every later writer of
+    # PAIR_INFO must keep it (the decimals update rewrites the whole record)
+    from .. import compose
+    from . import c17
+    p1 = ctx.inst("C20.P1", "the stored LP token address (what the withdraw hook's caller guard compares with) survives every rewrite of the pair record (shared with C17.R5)", floor=1)
+    compose.pull(ctx, p1, c17, {"C17.R5"}, "C20.P1", key_rx=r":(field:liquidity_token|anchor)")
+    if p1.status == "pass":
+        p1.site("every writer of the pair record outside instantiate / reply keeps liquidity_token (C17.R5 field clause)")
